@@ -258,6 +258,7 @@ class Capture:
         self.conn = None
         self.preserved = None
         self.replaced = {}
+        self.pretrim_poles = None
 
 
 @contextlib.contextmanager
@@ -332,6 +333,16 @@ def capturing(cap: Capture, forced_layout: str | None = None):
 
     _opt.CSEOptimizer.optimize = cse
     _opt.ConstantPropagationOptimizer.optimize = cprop
+    o_trim = LayoutPlanner._trim_power_poles
+
+    def trim(self, *a, **k):
+        # the pole grid as laid out, before the poles that cover nothing are removed (last attempt wins)
+        cap.pretrim_poles = [[float(pl.position[0]), float(pl.position[1])]
+                             for pl in self.layout_plan.entity_placements.values()
+                             if pl.properties.get("is_power_pole") and pl.position is not None]
+        return o_trim(self, *a, **k)
+
+    LayoutPlanner._trim_power_poles = trim
     ASTLowerer.lower_program = lower
     LayoutPlanner.plan_layout = plan
     BlueprintEmitter.emit_from_plan = emit
@@ -346,6 +357,7 @@ def capturing(cap: Capture, forced_layout: str | None = None):
         DSLParser.parse = o_parse
         ConnectionPlanner.plan_connections = o_conn
         _ils.IntegerLayoutEngine._solve_with_strategy = o_solve
+        LayoutPlanner._trim_power_poles = o_trim
         _opt.CSEOptimizer.optimize = o_cse
         _opt.ConstantPropagationOptimizer.optimize = o_cp
 
@@ -417,6 +429,11 @@ def compile_capture(source: str, optimize: bool = True, power_poles: str | None 
         rec["wild_sources"] = wild_sources(cap.ir_final)
     # nodes merged or folded away by the optimisers: old id -> the node that now stands for it
     rec["replaced"] = dict(cap.replaced)
+    if cap.pretrim_poles is not None and power_poles:
+        from draftsman.data import entities as _ed
+        proto = {"small": "small-electric-pole", "medium": "medium-electric-pole", "big": "big-electric-pole", "substation": "substation"}.get(power_poles)
+        rec["pretrim_poles"] = cap.pretrim_poles
+        rec["grid_supply"] = int(round(float(_ed.raw.get(proto, {}).get("supply_area_distance", 0)) * 1000))
     if cap.lowerer is not None:
         low = cap.lowerer
         rec["names"] = {k: ref_json(v) for k, v in low.signal_refs.items()}
